@@ -534,6 +534,17 @@ func (a *c10) siblings() {
 		if !writesList {
 			continue
 		}
+		// parts of the table changed through helpers of the package that fn calls (e.g. a helper that keeps the offset set)
+		for callee := range core.StaticReach(fn, 2) {
+			if callee == fn || core.PkgOf(callee) != "dhcpd" {
+				continue
+			}
+			for _, in := range a.mutInstr[callee] {
+				if f := strings.Fields(c10Mutation(in)); len(f) == 2 {
+					touched[f[1]] = true
+				}
+			}
+		}
 		n++
 		key := "list-writer:" + core.FuncKey(fn)
 		if nilOnly {
@@ -1004,5 +1015,5 @@ func (a *c10) offsetsInRange() {
 				"the pool-offset bit is changed although the address may lie outside the dynamic range (offset() then reports 0, the first pool address): a lease outside the pool marks or frees the first pool address", traceOf(p, off)...)
 		}
 	}
-	r.Floor("C10-D8", "pool-offset-updates", n, 2)
+	r.Floor("C10-D8", "pool-offset-updates", n, 1)
 }
